@@ -417,67 +417,10 @@ func rulePartDep(r *Run) {
 			if k, ok := symOf(mu.Key).isConst(); !ok || k != "word/styles.xml" {
 				return
 			}
-			// can the store be reached while the part is present?
-			var lookups []*ssa.Lookup
-			allInstrs(fn, func(in2 ssa.Instruction) {
-				if lk, ok := in2.(*ssa.Lookup); ok && lk.CommaOk {
-					if k, ok := symOf(lk.Index).isConst(); ok && k == "word/styles.xml" {
-						lookups = append(lookups, lk)
-					}
-				}
-			})
-			presentEdge := func(from *ssa.BasicBlock, i int) bool {
-				// false edges of `ok` / `len(existing) > 0` tests are not taken when the part is present
-				if len(from.Instrs) == 0 {
-					return true
-				}
-				iff, ok := from.Instrs[len(from.Instrs)-1].(*ssa.If)
-				if !ok {
-					return true
-				}
-				isOK := func(v ssa.Value) bool {
-					ex, ok := v.(*ssa.Extract)
-					if !ok || ex.Index != 1 {
-						return false
-					}
-					for _, lk := range lookups {
-						if ex.Tuple == ssa.Value(lk) {
-							return true
-						}
-					}
-					return false
-				}
-				isBytes := func(v ssa.Value) bool {
-					ex, ok := v.(*ssa.Extract)
-					if !ok || ex.Index != 0 {
-						return false
-					}
-					for _, lk := range lookups {
-						if ex.Tuple == ssa.Value(lk) {
-							return true
-						}
-					}
-					return false
-				}
-				if isOK(iff.Cond) {
-					return i == 0
-				}
-				if bo, ok := iff.Cond.(*ssa.BinOp); ok {
-					if c, ok := bo.X.(*ssa.Call); ok {
-						if b, ok := c.Call.Value.(*ssa.Builtin); ok && b.Name() == "len" && isBytes(c.Call.Args[0]) {
-							if z, isC := constInt(bo.Y); isC && z == 0 {
-								switch bo.Op {
-								case token.GTR, token.NEQ:
-									return i == 0
-								case token.EQL, token.LEQ:
-									return i == 1
-								}
-							}
-						}
-					}
-				}
-				return true
-			}
+			// can the store be reached while the part is present?  Conditions are evaluated under the
+			// assumption "the look-up of this key succeeds with a non-empty value" (three-valued,
+			// through && / || phis and through boolean helper functions)
+			pe := &presentEval{key: "word/styles.xml"}
 			seen := map[*ssa.BasicBlock]bool{}
 			var walk func(b *ssa.BasicBlock)
 			walk = func(b *ssa.BasicBlock) {
@@ -486,7 +429,7 @@ func rulePartDep(r *Run) {
 				}
 				seen[b] = true
 				for i, sc := range b.Succs {
-					if presentEdge(b, i) {
+					if pe.edgeFeasible(b, i) {
 						walk(sc)
 					}
 				}
@@ -801,4 +744,170 @@ func openToleratesStyleFailure(p *Program) (bool, string) {
 		})
 	}
 	return tol, where
+}
+
+// presentEval: three-valued evaluation of boolean SSA values under the assumption that the
+// comma-ok look-up of `key` in a part map succeeds with a non-empty value.
+type presentEval struct {
+	key   string
+	depth int
+}
+
+const (
+	pvUnknown = iota
+	pvTrue
+	pvFalse
+)
+
+func (pe *presentEval) isLookup(v ssa.Value, idx int) bool {
+	if lk, ok := v.(*ssa.Lookup); ok && !lk.CommaOk && idx == 0 {
+		k, isC := symOf(lk.Index).isConst()
+		return isC && k == pe.key
+	}
+	ex, ok := v.(*ssa.Extract)
+	if !ok || ex.Index != idx {
+		return false
+	}
+	lk, ok := ex.Tuple.(*ssa.Lookup)
+	if !ok || !lk.CommaOk {
+		return false
+	}
+	k, isC := symOf(lk.Index).isConst()
+	return isC && k == pe.key
+}
+
+func (pe *presentEval) edgeFeasible(from *ssa.BasicBlock, i int) bool {
+	if len(from.Instrs) == 0 {
+		return true
+	}
+	iff, ok := from.Instrs[len(from.Instrs)-1].(*ssa.If)
+	if !ok {
+		return true
+	}
+	switch pe.eval(iff.Cond, map[ssa.Value]bool{}) {
+	case pvTrue:
+		return i == 0
+	case pvFalse:
+		return i == 1
+	}
+	return true
+}
+
+func (pe *presentEval) eval(v ssa.Value, busy map[ssa.Value]bool) int {
+	if busy[v] {
+		return pvUnknown
+	}
+	busy[v] = true
+	defer delete(busy, v)
+	neg := func(x int) int {
+		switch x {
+		case pvTrue:
+			return pvFalse
+		case pvFalse:
+			return pvTrue
+		}
+		return pvUnknown
+	}
+	switch x := v.(type) {
+	case *ssa.Const:
+		if x.Value != nil {
+			switch x.Value.String() {
+			case "true":
+				return pvTrue
+			case "false":
+				return pvFalse
+			}
+		}
+	case *ssa.Extract:
+		if pe.isLookup(x, 1) {
+			return pvTrue
+		}
+	case *ssa.UnOp:
+		if x.Op == token.NOT {
+			return neg(pe.eval(x.X, busy))
+		}
+	case *ssa.BinOp:
+		if c, ok := x.X.(*ssa.Call); ok {
+			if b, ok := c.Call.Value.(*ssa.Builtin); ok && b.Name() == "len" && pe.isLookup(c.Call.Args[0], 0) {
+				if z, isC := constInt(x.Y); isC {
+					switch {
+					case (x.Op == token.GTR || x.Op == token.NEQ) && z == 0, x.Op == token.GEQ && z == 1:
+						return pvTrue
+					case (x.Op == token.EQL || x.Op == token.LEQ) && z == 0, x.Op == token.LSS && z == 1:
+						return pvFalse
+					}
+				}
+			}
+		}
+		if isNilConst(x.Y) && pe.isLookup(x.X, 0) {
+			if x.Op == token.NEQ {
+				return pvTrue
+			}
+			if x.Op == token.EQL {
+				return pvFalse
+			}
+		}
+	case *ssa.Phi:
+		res := -1
+		for i, e := range x.Edges {
+			pr := x.Block().Preds[i]
+			feasible := false
+			for si, sc := range pr.Succs {
+				if sc == x.Block() && pe.edgeFeasible(pr, si) {
+					feasible = true
+				}
+			}
+			if !feasible {
+				continue
+			}
+			ev := pe.eval(e, busy)
+			if res == -1 {
+				res = ev
+			} else if res != ev {
+				return pvUnknown
+			}
+		}
+		if res >= 0 {
+			return res
+		}
+	case *ssa.Call:
+		cal := staticCallee(x)
+		if cal == nil || len(cal.Blocks) == 0 || pe.depth > 2 {
+			return pvUnknown
+		}
+		if b, ok := x.Type().Underlying().(*types.Basic); !ok || b.Kind() != types.Bool {
+			return pvUnknown
+		}
+		sub := &presentEval{key: pe.key, depth: pe.depth + 1}
+		seen := map[*ssa.BasicBlock]bool{}
+		var walk func(b *ssa.BasicBlock)
+		walk = func(b *ssa.BasicBlock) {
+			if seen[b] {
+				return
+			}
+			seen[b] = true
+			for i, sc := range b.Succs {
+				if sub.edgeFeasible(b, i) {
+					walk(sc)
+				}
+			}
+		}
+		walk(cal.Blocks[0])
+		res := -1
+		for _, ret := range returnsOf(cal) {
+			if !seen[ret.Block()] || len(ret.Results) != 1 {
+				continue
+			}
+			ev := sub.eval(ret.Results[0], map[ssa.Value]bool{})
+			if res == -1 {
+				res = ev
+			} else if res != ev {
+				return pvUnknown
+			}
+		}
+		if res >= 0 {
+			return res
+		}
+	}
+	return pvUnknown
 }
